@@ -62,6 +62,11 @@ def gen_params(r):
 
 def make_case(seed, i):
     r = cm.rng(seed, "c02", i)
+    if i % 10 == 7:
+        # a program of fragment 2 of the unused side (Fragment.u2_block, imports bound once): functions and lambdas, the
+        # imports `as` fresh names at top-level positions - what C02_tidy_remove_preserves_trace_stage2 is about
+        prog = c05.to_u2(r, G.gen_program(r, True, classes=False, funcs=True, comps=False))
+        return {"kind": "exec", "i": i, "prog": G.normalise(prog), "ns": [[G.REG, G.DEC]], "params": gen_params(r)}
     g = G.Gen(r, True, maxdepth=2, mods=MODS2)
     prog = []
     if r.random() < .3:
@@ -867,6 +872,14 @@ def run_cases(ctx, cases):
     # phase 1: Finder on the original program
     exprs = [c05.model_expr(c, p[1], p[2]) for c, p in zip(cases, prepared)]
     model = cm.coq_eval_json(c05.REQ, exprs, shard=60)
+    # which unused-side fragment each program is in (C02_unused_sound_partial / _stage2, and with them the end-to-end
+    # theorems C02_tidy_remove_preserves_trace_stage1 / _stage2), and the proved statement evaluated on it
+    for c, p, mo in zip(cases, prepared, model):
+        us = mo.get("ustage", 0) if mo.get("star_free", True) else 0
+        ctx.bump("ufragment:stage%d" % us if us else "ufragment:outside")
+        if us >= 1 and not mo.get("unused_ok", True):
+            ctx.disagreement("statement check: stage-%d unused_sound is false on this program" % us,
+                             {"src": p[0], "ns": c["ns"], "prog": c["prog"], "kind": "free"}, None, None)
     # phase 2: the reformatted module as a term (closed mode), Finder on it
     ref_cases, ref_idx = [], []
     for k, (c, p, im) in enumerate(zip(cases, prepared, impl)):
@@ -1015,6 +1028,10 @@ def run(ctx):
         "executable programs from one seeded PRNG: 1-3 segments of a top-level import block (1-4 statements: plain / dotted / "
         "aliased / from imports over a 10-name pool, so names collide) followed by statements of the C05 executed stream "
         "(defs, lambdas, classes, comprehensions, loops; every function runs after the module) and attribute reads; "
+        "1 program in 10 is instead generated inside fragment 2 of the unused side (functions and lambdas, imports `as` fresh "
+        "names at top-level positions); the counters ufragment:stage1 / ufragment:stage2 / ufragment:outside are the MEASURED "
+        "number of programs inside Fragment.u1_block / u2_block+imports_once / neither - only those inside are covered by "
+        "C02_unused_sound_* and the end-to-end theorems, and each of them is also checked against the statement by vm_compute; "
         "non-trivial = an import is reported unused or a block holds more than one import; distinct by hash of the source")
     ctx.assumptions += [
         "the tracing import universe (every import succeeds, from a import b and import a.b as b yield the same object) stands for the real one",
